@@ -105,6 +105,16 @@ static void describe (void)
     else ob_hex (&out, (const unsigned char *) _dbus_string_get_const_data (u), (size_t) _dbus_string_get_length (u));
   }
   ob_printf (&out, " fdneg=%d", _dbus_auth_get_unix_fd_negotiated (auth));
+  {
+    /* hook H2: the object's internal state, for the explorer's state key (spaces replaced so that it stays one token) */
+    DBusString d; int i;
+    if (!_dbus_string_init (&d)) _exit (3);
+    if (!_dbus_verif_auth_dump (auth, &d)) _exit (3);
+    ob_puts (&out, " dump=");
+    for (i = 0; i < _dbus_string_get_length (&d); i++)
+      { char c = _dbus_string_get_byte (&d, i); ob_putc (&out, c == ' ' ? '~' : c); }
+    _dbus_string_free (&d);
+  }
 }
 
 /* FEED <hex> */
